@@ -321,6 +321,72 @@ func stBound(st *State, in *ssa.Call) bool {
 	return ok
 }
 
+// symHasSuffix: a bounded symbolic string ends with the given literal
+func symHasSuffix(s StringV, suf string) *Term {
+	k := Const(64, uint64(len(suf)))
+	c := Ule(k, s.Len)
+	for i := 0; i < len(suf); i++ {
+		c = And(c, Eq(Select(s.Arr, Add(Sub(s.Len, k), Const(64, uint64(i)))), Const(8, uint64(suf[i]))))
+	}
+	return c
+}
+
+// trimSet: strings.TrimLeft / TrimRight / Trim of a bounded symbolic string by a literal ASCII
+// cutset: byte-wise (a byte of a multi-byte rune is never in an ASCII cutset, so the rune-wise
+// library function stops at the same place).
+func (ex *Exec) trimSet(st *State, s StringV, cut StringV, in *ssa.Call, left, right bool) bool {
+	if !s.Sym && !cut.Sym {
+		switch {
+		case left && right:
+			setRes(st, in, StringV{S: strings.Trim(s.S, cut.S)})
+		case left:
+			setRes(st, in, StringV{S: strings.TrimLeft(s.S, cut.S)})
+		default:
+			setRes(st, in, StringV{S: strings.TrimRight(s.S, cut.S)})
+		}
+		return true
+	}
+	if cut.Sym {
+		panic("strings.Trim* with a symbolic cutset")
+	}
+	for i := 0; i < len(cut.S); i++ {
+		if cut.S[i] >= 0x80 {
+			panic("strings.Trim* with a non-ASCII cutset")
+		}
+	}
+	inSet := func(i int) *Term {
+		c := False
+		b := Select(s.Arr, Const(64, uint64(i)))
+		for k := 0; k < len(cut.S); k++ {
+			c = Or(c, Eq(b, Const(8, uint64(cut.S[k]))))
+		}
+		return c
+	}
+	end := s.Len
+	if right {
+		// end = 1 + the largest index < len whose byte is not in the set (0 if none)
+		end = Const(64, 0)
+		for i := 0; i < s.Max; i++ {
+			end = Ite(And(Ult(Const(64, uint64(i)), s.Len), Not(inSet(i))), Const(64, uint64(i+1)), end)
+		}
+	}
+	start := Const(64, 0)
+	if left {
+		// start = the smallest index < end whose byte is not in the set (end if none)
+		start = end
+		for i := s.Max - 1; i >= 0; i-- {
+			start = Ite(And(Ult(Const(64, uint64(i)), end), Not(inSet(i))), Const(64, uint64(i)), start)
+		}
+	}
+	n := Sub(end, start)
+	arr := s.Arr
+	if left {
+		arr = ACopy(AConst(8, 0), Const(64, 0), s.Arr, start, n)
+	}
+	setRes(st, in, StringV{Sym: true, Arr: arr, Len: n, Max: s.Max, U: s.U})
+	return true
+}
+
 // caseMap: strings.ToLower / ToUpper of a bounded symbolic string: byte-wise ASCII mapping on the
 // path where every byte is ASCII; on the other path (some byte >= 0x80: Unicode case mapping, the
 // length may change) the result is an arbitrary string and the path is imprecise.
@@ -1102,6 +1168,59 @@ func init() {
 		},
 		"strings.ToUpper": func(ex *Exec, st *State, args []Value, in *ssa.Call, pos token.Pos) bool {
 			return ex.caseMap(st, args[0].(StringV), in, true)
+		},
+		"strings.TrimRight": func(ex *Exec, st *State, args []Value, in *ssa.Call, pos token.Pos) bool {
+			return ex.trimSet(st, args[0].(StringV), args[1].(StringV), in, false, true)
+		},
+		"strings.TrimLeft": func(ex *Exec, st *State, args []Value, in *ssa.Call, pos token.Pos) bool {
+			return ex.trimSet(st, args[0].(StringV), args[1].(StringV), in, true, false)
+		},
+		"strings.Trim": func(ex *Exec, st *State, args []Value, in *ssa.Call, pos token.Pos) bool {
+			return ex.trimSet(st, args[0].(StringV), args[1].(StringV), in, true, true)
+		},
+		"strings.HasSuffix": func(ex *Exec, st *State, args []Value, in *ssa.Call, pos token.Pos) bool {
+			s, p := args[0].(StringV), args[1].(StringV)
+			if !s.Sym && !p.Sym {
+				setRes(st, in, BoolC(strings.HasSuffix(s.S, p.S)))
+				return true
+			}
+			if p.Sym {
+				panic("strings.HasSuffix with a symbolic suffix")
+			}
+			setRes(st, in, symHasSuffix(s, p.S))
+			return true
+		},
+		"strings.TrimSuffix": func(ex *Exec, st *State, args []Value, in *ssa.Call, pos token.Pos) bool {
+			s, p := args[0].(StringV), args[1].(StringV)
+			if !s.Sym && !p.Sym {
+				setRes(st, in, StringV{S: strings.TrimSuffix(s.S, p.S)})
+				return true
+			}
+			if p.Sym {
+				panic("strings.TrimSuffix with a symbolic suffix")
+			}
+			k := Const(64, uint64(len(p.S)))
+			setRes(st, in, StringV{Sym: true, Arr: s.Arr, Len: Ite(symHasSuffix(s, p.S), Sub(s.Len, k), s.Len), Max: s.Max, U: s.U})
+			return true
+		},
+		"strings.TrimPrefix": func(ex *Exec, st *State, args []Value, in *ssa.Call, pos token.Pos) bool {
+			s, p := args[0].(StringV), args[1].(StringV)
+			if !s.Sym && !p.Sym {
+				setRes(st, in, StringV{S: strings.TrimPrefix(s.S, p.S)})
+				return true
+			}
+			if p.Sym {
+				panic("strings.TrimPrefix with a symbolic prefix")
+			}
+			k := Const(64, uint64(len(p.S)))
+			c := Ule(k, s.Len)
+			for i := 0; i < len(p.S); i++ {
+				c = And(c, Eq(Select(s.Arr, Const(64, uint64(i))), Const(8, uint64(p.S[i]))))
+			}
+			off := Ite(c, k, Const(64, 0))
+			n := Sub(s.Len, off)
+			setRes(st, in, StringV{Sym: true, Arr: ACopy(AConst(8, 0), Const(64, 0), s.Arr, off, n), Len: n, Max: s.Max, U: s.U})
+			return true
 		},
 		"strings.HasPrefix": func(ex *Exec, st *State, args []Value, in *ssa.Call, pos token.Pos) bool {
 			s, p := args[0].(StringV), args[1].(StringV)
